@@ -21,12 +21,25 @@ var earlyWaiters = &core.Check{Name: "c13/early-waiters", Quick: 60, Thorough: 6
 	p.VerifSetUpdateInterval(time.Hour)
 	best := p.VerifNewConnection(0)
 	p.VerifSetBest(best)
+	other := p.VerifNewConnection(1) // a second, non-best connection that reports the same heads
+	withOther := c.Bool("other")
 	ctx, cancel := context.WithCancel(context.Background())
 	defer cancel()
-	go p.Run(ctx)
+	// Run may start only after head updates have queued up (it then finds several at once)
+	runLate := c.Intn("runLate", 3) == 0
+	if !runLate {
+		go p.Run(ctx)
+	}
 	usedBefore := c.Intn("usedBefore", 3) // 0 = the pool never had a registered waiter before
+	if runLate {
+		usedBefore = 0
+		c.Class("Run started after updates queued")
+	}
 	base := uint32(5)
 	best.SetMasterHead(pool.VerifHead(base))
+	if withOther {
+		other.SetMasterHead(pool.VerifHead(base))
+	}
 	time.Sleep(5 * time.Millisecond)
 	for i := 0; i < usedBefore; i++ { // earlier registered waiters that came and went
 		p.WaitMasterchainSeqno(context.Background(), base+1000, time.Millisecond)
@@ -101,7 +114,15 @@ var earlyWaiters = &core.Check{Name: "c13/early-waiters", Quick: 60, Thorough: 6
 	// heads up to the target, one by one
 	for s := base + 1; s <= target; s++ {
 		best.SetMasterHead(pool.VerifHead(s))
-		gap()
+		if withOther { // the other server announces the same block right behind the best one
+			other.SetMasterHead(pool.VerifHead(s))
+		}
+		if !runLate {
+			gap()
+		}
+	}
+	if runLate {
+		go p.Run(ctx)
 	}
 	published := time.Since(start)
 	done := make(chan struct{})
